@@ -112,10 +112,14 @@ fn check_readback(loc: &mut Local, x: &Ix, entry: &str, input: &serde_json::Valu
     if back != Some(*dt) || back.map(|b| b.naive_utc()) != Some(dt.naive_utc()) {
         loc.violation(&format!("C02/{}/from_timestamp-roundtrip", entry), json!({"input": input, "value": format!("{:?}", dt.naive_utc()), "back": show(&back)}));
     }
-    if e.is_leap() {
+    // (a leap-second representation reads as its second plus a fraction of 1.0 .. 2.0 s, as the
+    // accessors' rustdoc says: "in event of a leap second this may exceed 999[_999_999]")
+    let total: i128 = s as i128 * 1_000_000_000 + e.frac as i128;
+    if e.is_leap() && (total - 4_000_000_000 < i64::MIN as i128 || total + 4_000_000_000 > i64::MAX as i128) {
+        // at the very edge of the i64-nanosecond window the count of a leap representation is not
+        // judged (whether the intermediate whole-second product must fit is not the property's business)
         return;
     }
-    let total: i128 = s as i128 * 1_000_000_000 + e.frac as i128;
     let ms = total.div_euclid(1_000_000);
     let us = total.div_euclid(1000);
     if dt.timestamp_millis() as i128 != ms || dt.timestamp_micros() as i128 != us {
